@@ -64,8 +64,43 @@ def rule_pipeline(repo: Repo) -> RuleResult:
     r.site(tok.qn + " [chain]")
     tr = p.trace(exts[0].args[0])
     src = [x for x in tr if x[0] == "self" and "attr:pddl_file_content" in x]
+    scans = []
+    for c in L.calls_in(tok.node):
+        pat = _scan_pattern(repo, tok, c)
+        if pat is not None:
+            scans.append((c, pat))
     if not src:
         r.fail(Finding("C11.pipeline", tok, "chain:source", "tokens do not derive from self.pddl_file_content"))
+    elif scans:
+        # second idiom: tokens are the matches of a scanning regex  ( [()] | <token class>+ )
+        problems = _scan_regex_problems(scans[0][1])
+        # separators that were already normalised away upstream (replace / split on that character) cannot reach the scan
+        handled = set()
+        for fn_ in funcs:
+            for c_ in L.calls_in(fn_.node):
+                if isinstance(c_.func, ast.Attribute) and c_.func.attr in ("replace", "split") and c_.args and isinstance(c_.args[0], ast.Constant) \
+                        and isinstance(c_.args[0].value, str) and len(c_.args[0].value) == 1:
+                    handled.add(c_.args[0].value)
+                if isinstance(c_.func, ast.Attribute) and c_.func.attr == "splitlines":
+                    handled |= {"\n", "\r"}
+                if isinstance(c_.func, ast.Attribute) and c_.func.attr == "readlines":
+                    handled.add("\n")
+        names = {"\t": "tab", "\n": "newline", "\r": "carriage return", " ": "blank"}
+        problems = [p_ for p_ in problems if not any(p_.endswith("a " + names[h]) for h in handled if h in names)]
+        lowered = any("call:lower" in x for x in src)
+        comment_ok = any(_is_comment_regex(c.args[0].value) for c in L.calls_in(tok.node)
+                         if ast.unparse(c.func) in ("re.sub", "sub") and len(c.args) >= 3 and isinstance(c.args[0], ast.Constant)) or \
+            any(isinstance(c.func, ast.Attribute) and c.func.attr in ("partition", "split") and c.args and isinstance(c.args[0], ast.Constant) and c.args[0].value == ";"
+                for c in L.calls_in(tok.node))
+        if not lowered:
+            problems.append("lower() is not applied")
+        if not comment_ok:
+            problems.append("';' comments are not removed")
+        if problems:
+            r.fail(Finding("C11.pipeline", tok, "scan-regex:" + "/".join(sorted({p_.split(":")[0] for p_ in problems})),
+                           f"tokens are the matches of {scans[0][1]!r}: {problems}", node=scans[0][0]))
+        else:
+            r.ok({"chain": "regex scan", "pattern": scans[0][1]})
     else:
         need = {"lower": any("call:lower" in x for x in src), "split": any("call:split" in x for x in src),
                 "pad(": False, "pad)": False, "comment": False}
@@ -109,8 +144,74 @@ def rule_pipeline(repo: Repo) -> RuleResult:
         r.ok({"modes": sorted(roots)})
     else:
         r.fail(Finding("C11.pipeline", init, "input-modes", f"pddl_file_content is fed from {sorted(roots)} only"))
-    r.require_sites(5)
+    r.require_sites(3)
     return r
+
+
+def _scan_pattern(repo: Repo, f: FuncInfo, c: ast.Call) -> Optional[str]:
+    """pattern string of re.findall(P, ..) / re.finditer(P, ..) / <compiled>.findall(..) where <compiled> = re.compile(P)"""
+    fn = ast.unparse(c.func)
+    if fn in ("re.findall", "re.finditer") and c.args and isinstance(c.args[0], ast.Constant) and isinstance(c.args[0].value, str):
+        return c.args[0].value
+    if isinstance(c.func, ast.Attribute) and c.func.attr in ("findall", "finditer"):
+        recv = c.func.value
+        cands: List[ast.AST] = []
+        if isinstance(recv, ast.Attribute) and isinstance(recv.value, ast.Name) and f.cls:
+            for st in repo.classes[f.cls].node.body:
+                if isinstance(st, ast.Assign) and any(isinstance(t, ast.Name) and t.id == recv.attr for t in st.targets):
+                    cands.append(st.value)
+        if isinstance(recv, ast.Name):
+            node = repo.const_node(f.mod.name, recv.id)
+            if node is not None:
+                cands.append(node)
+        for v in cands:
+            if isinstance(v, ast.Call) and ast.unparse(v.func) in ("re.compile", "compile") and v.args and isinstance(v.args[0], ast.Constant):
+                return v.args[0].value
+    return None
+
+
+def _scan_regex_problems(pat: str) -> List[str]:
+    """a scanning token pattern must (a) match each parenthesis as a token of its own and (b) never let a token contain
+    whitespace or a parenthesis"""
+    out: List[str] = []
+    with warnings.catch_warnings():
+        warnings.simplefilter("ignore")
+        tree = sre_parse.parse(pat)
+    items = list(tree)
+    alts = [list(a) for a in items[0][1][1]] if len(items) == 1 and items[0][0] == sre_c.BRANCH else [items]
+    paren_alt = False
+    for alt in alts:
+        if len(alt) == 1 and alt[0][0] == sre_c.IN and {a for o, a in alt[0][1] if o == sre_c.LITERAL} == {40, 41}:
+            paren_alt = True
+            continue
+        if len(alt) == 1 and alt[0][0] == sre_c.LITERAL and alt[0][1] in (40, 41):
+            paren_alt = True
+            continue
+        for op, av in alt:
+            if op in (sre_c.MAX_REPEAT, sre_c.MIN_REPEAT):
+                for o, a in av[2]:
+                    if o == sre_c.IN:
+                        neg = any(x == sre_c.NEGATE for x, _ in a)
+                        members = [(x, y) for x, y in a if x != sre_c.NEGATE]
+                        if neg:
+                            excluded_ws = any(x == sre_c.CATEGORY and y == sre_c.CATEGORY_SPACE for x, y in members)
+                            lits = {y for x, y in members if x == sre_c.LITERAL}
+                            for ch, name in ((32, "blank"), (9, "tab"), (10, "newline"), (13, "carriage return")):
+                                if not excluded_ws and ch not in lits:
+                                    out.append(f"separator-in-token: a token may contain a {name}")
+                            for ch in (40, 41):
+                                if ch not in lits:
+                                    out.append("paren-in-token: a token may contain a parenthesis")
+                        else:
+                            if any(x == sre_c.CATEGORY and y in (sre_c.CATEGORY_SPACE, sre_c.CATEGORY_NOT_WORD, sre_c.CATEGORY_NOT_DIGIT) for x, y in members):
+                                out.append("separator-in-token: the token class contains whitespace")
+                    elif o == sre_c.ANY:
+                        out.append("separator-in-token: '.' inside a token")
+                    elif o == sre_c.CATEGORY and a == sre_c.CATEGORY_NOT_SPACE:
+                        out.append("paren-in-token: \\S+ lets a token contain a parenthesis")
+    if not paren_alt:
+        out.append("paren-token: parentheses are not matched as tokens of their own")
+    return sorted(set(out))
 
 
 def _is_comment_regex(pat: str) -> bool:
